@@ -5,6 +5,7 @@
 #include "gates.hpp"
 #include "iokinds.hpp"
 #include <thread>
+#include <atomic>
 VH_MAIN_GLOBALS
 using namespace vh;
 
@@ -185,6 +186,43 @@ static void thread_histories(int count, int burst) {
     for (int i = 0; i < count; i++) { std::thread t(body, i); t.join(); out.evaluations++; }
     VH_OP("threads:bursts");
     for (int i = 0; i < count; i += burst) { std::vector<std::thread> th; for (int j = 0; j < burst; j++) th.emplace_back(body, i + j); for (auto &t: th) t.join(); out.evaluations += burst; }
+    // single-purpose threads: a thread whose whole life is ONE kind of FFT-related action on objects prepared by the main thread
+    // (a direct transform only, an inverse transform only, Lagrange arithmetic only, a conversion only, allocation only, ...).
+    // Whatever per-thread state that one action created must be released when the thread exits (leak checkers), and the
+    // result must be what the main thread gets.
+    {
+        VH_OP("threads:single-purpose");
+        const int N = 1024; const TGswParams *tg = ps->gb->tgsw_params; const TLweParams *tl = tg->tlwe_params;
+        IntPolynomial *ia = new_IntPolynomial(N); TorusPolynomial *tb = new_TorusPolynomial(N), *ref = new_TorusPolynomial(N);
+        for (int j = 0; j < N; j++) { ia->coefs[j] = (j * 5) % 7 - 3; tb->coefsT[j] = (int32_t) (j * 2246822519u + 17); }
+        LagrangeHalfCPolynomial *la = new_LagrangeHalfCPolynomial(N), *lb = new_LagrangeHalfCPolynomial(N), *lc = new_LagrangeHalfCPolynomial(N);
+        IntPolynomial_ifft(la, ia); TorusPolynomial_ifft(lb, tb); LagrangeHalfCPolynomialMul(lc, la, lb); TorusPolynomial_fft(ref, lc);
+        TLweSample *ts = new_TLweSample(tl); for (int i = 0; i <= tl->k; i++) for (int j = 0; j < N; j++) ts->a[i].coefsT[j] = (int32_t) (j * 40503u + i); ts->current_variance = 0;
+        TLweSampleFFT *tf = new_TLweSampleFFT(tl); tLweToFFTConvert(tf, ts, tl);
+        TGswSample *gs = new_TGswSample(tg); tGswClear(gs, tg); tGswAddH(gs, tg);
+        TGswSampleFFT *gf = new_TGswSampleFFT(tg); tGswToFFTConvert(gf, gs, tg);
+        std::atomic<int> bad{0};
+        auto one = [&](int kind) {
+            switch (kind) {
+                case 0: { TorusPolynomial *r = new_TorusPolynomial(N); TorusPolynomial_fft(r, lc); if (memcmp(r->coefsT, ref->coefsT, 4 * N)) bad++; delete_TorusPolynomial(r); break; }
+                case 1: { LagrangeHalfCPolynomial *l = new_LagrangeHalfCPolynomial(N); IntPolynomial_ifft(l, ia); delete_LagrangeHalfCPolynomial(l); break; }
+                case 2: { LagrangeHalfCPolynomial *l = new_LagrangeHalfCPolynomial(N); TorusPolynomial_ifft(l, tb); delete_LagrangeHalfCPolynomial(l); break; }
+                case 3: { LagrangeHalfCPolynomial *l = new_LagrangeHalfCPolynomial(N); LagrangeHalfCPolynomialMul(l, la, lb); LagrangeHalfCPolynomialAddTo(l, la); LagrangeHalfCPolynomialClear(l); delete_LagrangeHalfCPolynomial(l); break; }
+                case 4: { LagrangeHalfCPolynomial *l = new_LagrangeHalfCPolynomial_array(3, N); delete_LagrangeHalfCPolynomial_array(3, l); TGswSampleFFT *g = new_TGswSampleFFT(tg); delete_TGswSampleFFT(g); break; }
+                case 5: { TLweSample *r = new_TLweSample(tl); tLweFromFFTConvert(r, tf, tl); for (int i = 0; i <= tl->k; i++) for (int j = 0; j < N; j++) { int32_t d = r->a[i].coefsT[j] - ts->a[i].coefsT[j]; if (d > 1 || d < -1) { bad++; i = tl->k + 1; break; } } delete_TLweSample(r); break; }
+                case 6: { TGswSample *r = new_TGswSample(tg); tGswFromFFTConvert(r, gf, tg); delete_TGswSample(r); break; }
+                case 7: { TLweSampleFFT *r = new_TLweSampleFFT(tl); tLweToFFTConvert(r, ts, tl); delete_TLweSampleFFT(r); break; }
+                case 8: { LweSample *r = new_gate_bootstrapping_ciphertext(ps->gb); bootsNOT(r, in, &sk->cloud); bootsCOPY(r, in + 1, &sk->cloud); delete_gate_bootstrapping_ciphertext(r); break; }
+                case 9: { LweBootstrappingKeyFFT *f = new_LweBootstrappingKeyFFT(sk->cloud.bk); delete_LweBootstrappingKeyFFT(f); break; }
+            }
+        };
+        for (int rep = 0; rep < 3; rep++) for (int kind = 0; kind < 10; kind++) { std::thread t(one, kind); t.join(); out.evaluations++; }
+        if (bad) out.viol("memory:single-purpose-thread-wrong-result", J().i("count", bad.load()));
+        delete_TGswSampleFFT(gf); delete_TGswSample(gs); delete_TLweSampleFFT(tf); delete_TLweSample(ts);
+        delete_LagrangeHalfCPolynomial(lc); delete_LagrangeHalfCPolynomial(lb); delete_LagrangeHalfCPolynomial(la);
+        delete_TorusPolynomial(ref); delete_TorusPolynomial(tb); delete_IntPolynomial(ia);
+        out.cell("threads:single-purpose(10 kinds: direct-only, inverse-only, arithmetic-only, conversions, allocation-only, ...)", 30);
+    }
     // objects that outlive the thread that built them: a key set generated (and its FFT image computed) by a thread that
     // exits; then enough threads come and go for the C library to recycle and finally unmap the dead thread's stack and
     // thread-local block; then the key is used from other threads and from the main thread. Any access to the dead
